@@ -90,7 +90,7 @@ def generate(seed, tier, index, kf):
     if popen:
         ops.append({"s": "P", "op": "pop_quit"} if r.random() < 0.6 else {"s": "P", "op": "pop_drop"})
     prog = {
-        "format": 1, "seed": seed, "world": "A", "mode": "sequential", "latency": mailstore.swarm_latency(r, 0.3), "knobs": {}, "buggify": {},
+        "format": 1, "seed": seed, "world": "A", "mode": "sequential", "probe_p": r.choice((1.0, 1.0, 0.35, 0.1)), "latency": mailstore.swarm_latency(r, 0.3), "knobs": {}, "buggify": {},
         "store": store, "sessions": [{"id": s, "proto": "imap"} for s in sids] + [{"id": "P", "proto": "pop3"}], "ops": ops, "props": [PROP],
     }
     if r.random() < 0.6:
